@@ -968,7 +968,7 @@ class LibsModel:
         # x[-1] == len(a) - 1 : the wrap-around pseudo index of a circular shifted comparison is last / is absent
         if isinstance(left, ast.Subscript) and isinstance(left.value, ast.Name) and isinstance(op, (ast.Eq, ast.NotEq)):
             arrv = st.env.get(left.value.id)
-            iv = interp.value_of(left.slice)
+            iv = interp.cur(left.slice)
             if arrv is not None and arrv.rollwrap and iv is not None and has_const(iv) and cval(iv) == -1 and rv is not None and rv.bin is not None:
                 o, bl, br, _, _ = rv.bin
                 if o == '-' and has_const(br) and cval(br) == 1 and (bl.lenof is not None or bl.shape_of is not None or bl.sizeof is not None):
@@ -978,7 +978,7 @@ class LibsModel:
         # row['col'] != -1 / != NOSITE : the field is a real site on the true edge
         if isinstance(left, ast.Subscript) and isinstance(left.value, ast.Name) and lv is not None and rv is not None:
             row = st.env.get(left.value.id)
-            key = interp.value_of(left.slice)
+            key = interp.cur(left.slice)
             if row is not None and row.ty == 'Row' and row.cols and key is not None and has_const(key) and has_const(rv) and cval(rv) == -1:
                 o = type(op)
                 clean = (o is ast.NotEq and branch) or (o is ast.Eq and not branch)
